@@ -103,7 +103,21 @@ def r2_one_accumulation(ctx):
     a = accs[0]
     val = a.ast.value if isinstance(a.ast, ast.AugAssign) else \
         [c for c in a.calls() if call_name(c) == 'extend'][0].args[0]
-    if unparse(val).endswith('.new_evolutions'):
+    # flattened form: [e for task in <tasks> for e in task.new_evolutions]
+    comp_tasks = None
+    if isinstance(val, (ast.ListComp, ast.GeneratorExp)) and \
+            len(val.generators) == 2 and \
+            not val.generators[0].ifs and not val.generators[1].ifs and \
+            isinstance(val.elt, ast.Name) and \
+            isinstance(val.generators[1].target, ast.Name) and \
+            val.elt.id == val.generators[1].target.id and \
+            isinstance(val.generators[0].target, ast.Name) and \
+            isinstance(val.generators[1].iter, ast.Attribute) and \
+            val.generators[1].iter.attr == 'new_evolutions' and \
+            isinstance(val.generators[1].iter.value, ast.Name) and \
+            val.generators[1].iter.value.id == val.generators[0].target.id:
+        comp_tasks = unparse(val.generators[0].iter)
+    if unparse(val).endswith('.new_evolutions') or comp_tasks is not None:
         ctx.ok(f, 'accumulates task.new_evolutions', a.ast)
     else:
         ctx.finding(f, a.ast, 'the accumulated value is not '
@@ -117,7 +131,12 @@ def r2_one_accumulation(ctx):
     ec = execs[0][1] if execs else None
     tasks_arg = unparse(kwarg(ec, 'tasks')) if ec is not None and \
         kwarg(ec, 'tasks') is not None else None
-    if outer and inner and unparse(inner[-1].ast.iter) == tasks_arg and \
+    per_task = (inner and unparse(inner[-1].ast.iter) == tasks_arg) or \
+        (comp_tasks is not None and comp_tasks == tasks_arg and
+         all(a.id in loop_body_ids(g, h) for h in outer) and
+         not [h for h in for_heads(g) if a.id in loop_body_ids(g, h) and
+              h not in outer])
+    if outer and per_task and \
             all(g.dominates(en, a) for en, _ in execs):
         ctx.ok(f, 'every task of the executed class contributes once, after '
                'execute_tasks', a.ast)
